@@ -454,9 +454,10 @@ impl Prop for C20 {
         if rc.index % 2 == 0 {
             let lines = gen_xyz(&mut g);
             let damage = if rc.index % 8 == 6 {
-                match f.below(3) {
+                match f.below(4) {
                     0 => vec![Patch::Xor { offset: f.below(3000), mask: 1 << f.below(8) }],
-                    1 => vec![Patch::Truncate { len: f.below(3000) }],
+                    1 => vec![Patch::Truncate { len: if f.chance(1, 3) { f.below(50) } else { f.below(3000) } }],
+                    2 => vec![Patch::Xor { offset: f.below(48), mask: 1 << f.below(8) }],
                     _ => vec![Patch::Xor { offset: 1024 + f.below(1024), mask: 1 << f.below(8) }],
                 }
             } else {
@@ -477,7 +478,7 @@ impl Prop for C20 {
                 let len = build_image(&prog, &source, None).map(|(i, _)| i.len()).unwrap_or(1024);
                 match f.below(3) {
                     0 => super::c07::draw_alteration(&mut f, len),
-                    1 => vec![Patch::Truncate { len: f.below(len as u64 + 1) }],
+                    1 => vec![Patch::Truncate { len: if f.chance(1, 3) { f.below(50) } else { f.below(len as u64 + 1) } }],
                     _ => vec![Patch::Extend { bytes: vec![0u8; 1 + f.usize_below(1500)] }],
                 }
             } else {
